@@ -191,7 +191,7 @@ Definition tl3 := list (nat * arg * role).
 Definition untag (t : tl3) : lv := map fst t.
 
 Definition keep (k : nat) (x : nat * arg * role) : bool :=
-  match snd x with RKey j | RVal j => Nat.leb k j | RWord => true | RMark => false end.
+  match snd x with RKey j | RVal j => Nat.leb k j | RWord | RMark => true end.
 
 Fixpoint occs_of (t : tl3) : list (nat * option bytes) :=
   match t with
@@ -256,18 +256,23 @@ Inductive WF : nat -> tl3 -> Prop :=
 | WF_arg lo i a k it b w t :
     lo <= i -> is_key a = true -> find_owner items a 0 = Some (k, it) -> is_argument it = true ->
     is_value b = Some w -> WF (S (S i)) t -> WF lo ((i, a, RKey k) :: (S i, b, RVal k) :: t)
-| WF_word lo i a t : lo <= i -> is_word a = true -> WF (S i) t -> WF lo ((i, a, RWord) :: t).
+| WF_word lo i a t : lo <= i -> is_word a = true -> WF (S i) t -> WF lo ((i, a, RWord) :: t)
+(* a token that belongs to a deeper command level (tagged RMark): no item of this level matches it *)
+| WF_foreign lo i a t :
+    lo <= i -> (forall it, In it items -> matches_arg (item_named it) false a = false) ->
+    WF (S i) t -> WF lo ((i, a, RMark) :: t).
 
 Lemma WF_weaken lo lo' t : lo' <= lo -> WF lo t -> WF lo' t.
 Proof. intros H W. destruct W; econstructor; eauto; lia. Qed.
 
 Lemma WF_above lo t : WF lo t -> forall p, In p (untag t) -> lo <= fst p.
 Proof.
-  induction 1 as [lo|lo i a k it t Hl Hk Ho Ha W IH|lo i a k it b w t Hl Hk Ho Ha Hv W IH|lo i a t Hl Hw W IH];
+  induction 1 as [lo|lo i a k it t Hl Hk Ho Ha W IH|lo i a k it b w t Hl Hk Ho Ha Hv W IH|lo i a t Hl Hw W IH|lo i a t Hl Hf W IH];
     intros p Hp; cbn in Hp.
   - contradiction.
   - destruct Hp as [<-|Hp]; cbn; [lia|]. specialize (IH p Hp). lia.
   - destruct Hp as [<-|[<-|Hp]]; cbn; try lia. specialize (IH p Hp). lia.
+  - destruct Hp as [<-|Hp]; cbn; [lia|]. specialize (IH p Hp). lia.
   - destruct Hp as [<-|Hp]; cbn; [lia|]. specialize (IH p Hp). lia.
 Qed.
 
@@ -276,12 +281,13 @@ Proof. intros W p Hp. pose proof (WF_above _ _ W p Hp). lia. Qed.
 
 Lemma WF_filter k lo t : WF lo t -> WF lo (filter (keep k) t).
 Proof.
-  induction 1 as [lo|lo i a j it t Hl Hk Ho Ha W IH|lo i a j it b w t Hl Hk Ho Ha Hv W IH|lo i a t Hl Hw W IH];
+  induction 1 as [lo|lo i a j it t Hl Hk Ho Ha W IH|lo i a j it b w t Hl Hk Ho Ha Hv W IH|lo i a t Hl Hw W IH|lo i a t Hl Hf W IH];
     cbn [filter keep snd].
   - constructor.
   - destruct (Nat.leb k j); [eapply WF_flag; eauto|]. eapply WF_weaken; [|exact IH]. lia.
   - destruct (Nat.leb k j); [eapply WF_arg; eauto|]. eapply WF_weaken; [|exact IH]. lia.
   - apply WF_word; auto.
+  - apply WF_foreign; auto.
 Qed.
 
 Definition kept (k : nat) (t : tl3) : Prop := forall x, In x t -> keep k x = true.
@@ -331,7 +337,7 @@ Lemma flag_pops pr lo t :
   is_argument it = false -> WF lo t -> kept k t ->
   Pops (aeval_flag nm pr None) (untag t) (repeat pr (length (kvals k t))) (untag (filter (keep (S k)) t)).
 Proof.
-  intros Hna W. induction W as [lo|lo i a j itj t Hl Hk Ho Ha W IH|lo i a j itj b w t Hl Hk Ho Ha Hv W IH|lo i a t Hl Hw W IH];
+  intros Hna W. induction W as [lo|lo i a j itj t Hl Hk Ho Ha W IH|lo i a j itj b w t Hl Hk Ho Ha Hv W IH|lo i a t Hl Hw W IH|lo i a t Hl Hfo W IH];
     intros Kp.
   - apply Pops_nil. reflexivity.
   - pose proof (key_match a j itj Ho) as M. specialize (IH (kept_tail _ _ _ Kp)).
@@ -366,6 +372,9 @@ Proof.
   - specialize (IH (kept_tail _ _ _ Kp)). unfold kvals in *. cbn [occs_of untag map fst filter keep snd].
     apply (pops_skip _ (i, a)); [|apply flag_incl|apply WF_above'; exact W|exact IH].
     intros l0 A. apply flag_skip; [apply not_key_no_match; apply word_not_key; exact Hw|exact A].
+  - specialize (IH (kept_tail _ _ _ Kp)). unfold kvals in *. cbn [occs_of untag map fst filter keep snd].
+    apply (pops_skip _ (i, a)); [|apply flag_incl|apply WF_above'; exact W|exact IH].
+    intros l0 A. apply flag_skip; [apply Hfo; eapply nth_error_In; exact Hit|exact A].
 Qed.
 
 (* argument items: every occurrence (key + value) is popped, values in command-line order *)
@@ -374,7 +383,7 @@ Lemma arg_pops ty lo t :
   forall vs, convert_all ty (kvals k t) = Some vs ->
   Pops (aeval_arg nm ty) (untag t) vs (untag (filter (keep (S k)) t)).
 Proof.
-  intros Hia W. induction W as [lo|lo i a j itj t Hl Hk Ho Ha W IH|lo i a j itj b w t Hl Hk Ho Ha Hv W IH|lo i a t Hl Hw W IH];
+  intros Hia W. induction W as [lo|lo i a j itj t Hl Hk Ho Ha W IH|lo i a j itj b w t Hl Hk Ho Ha Hv W IH|lo i a t Hl Hw W IH|lo i a t Hl Hfo W IH];
     intros Kp vs Hc.
   - cbn in Hc. inversion Hc; subst. apply Pops_nil. reflexivity.
   - pose proof (key_match a j itj Ho) as M.
@@ -416,6 +425,10 @@ Proof.
     cbn [untag map fst filter keep snd].
     apply (pops_skip _ (i, a)); [|apply arg_incl|apply WF_above'; exact W|exact IH].
     intros l0 A. apply arg_skip; [apply not_key_no_match; apply word_not_key; exact Hw|exact A].
+  - unfold kvals in *. cbn [occs_of] in Hc. specialize (IH (kept_tail _ _ _ Kp) vs Hc).
+    cbn [untag map fst filter keep snd].
+    apply (pops_skip _ (i, a)); [|apply arg_incl|apply WF_above'; exact W|exact IH].
+    intros l0 A. apply arg_skip; [apply Hfo; eapply nth_error_In; exact Hit|exact A].
 Qed.
 End Item.
 End Level.
@@ -556,7 +569,7 @@ Qed.
 Lemma kvals_filter k j lo t : WF items lo t -> k <= j -> kvals j (filter (keep k) t) = kvals j t.
 Proof.
   intros W Hj. unfold kvals.
-  induction W as [lo|lo i a j' it t Hl Hk Ho Ha W IH|lo i a j' it b w t Hl Hk Ho Ha Hv W IH|lo i a t Hl Hw W IH].
+  induction W as [lo|lo i a j' it t Hl Hk Ho Ha W IH|lo i a j' it b w t Hl Hk Ho Ha Hv W IH|lo i a t Hl Hw W IH|lo i a t Hl Hfo W IH].
   - reflexivity.
   - rewrite (occs_flag lo i a j' t W Hl). cbn [filter keep snd].
     destruct (Nat.leb k j') eqn:K.
@@ -568,6 +581,7 @@ Proof.
     + cbn [occs_of]. unfold occ_of in *. cbn [filter fst]. destruct (Nat.eqb j' j); cbn [map]; rewrite IH; reflexivity.
     + apply Nat.leb_gt in K. cbn [occs_of]. unfold occ_of in *. cbn [filter fst].
       assert (E : Nat.eqb j' j = false) by (apply Nat.eqb_neq; lia). rewrite E. exact IH.
+  - cbn [filter keep snd occs_of]. exact IH.
   - cbn [filter keep snd occs_of]. exact IH.
 Qed.
 
@@ -620,7 +634,7 @@ Lemma word_pops ty lo t :
   WF items lo t -> all_words t -> forall vs, conv_words ty (words_of t) = Some vs ->
   Pops (aeval_pos ty) (untag t) vs [].
 Proof.
-  intros W. induction W as [lo|lo i a j it t Hl Hk Ho Ha W IH|lo i a j it b w t Hl Hk Ho Ha Hv W IH|lo i a t Hl Hw W IH];
+  intros W. induction W as [lo|lo i a j it t Hl Hk Ho Ha W IH|lo i a j it b w t Hl Hk Ho Ha Hv W IH|lo i a t Hl Hw W IH|lo i a t Hl Hfo W IH];
     intros Aw vs Hc.
   - cbn in Hc. inversion Hc; subst. apply Pops_nil. reflexivity.
   - specialize (Aw _ (or_introl eq_refl)). discriminate.
@@ -631,6 +645,7 @@ Proof.
     cbn [untag map fst]. fold (untag t).
     apply (Pops_cons _ _ v (untag t)); [|unfold untag; cbn [length map]; lia|apply IH; [eapply all_words_tail; eauto|reflexivity]].
     rewrite (pos_head ty i a (untag t) Hw (WF_above' items _ _ W)). unfold aconvert. rewrite Cv. reflexivity.
+  - specialize (Aw _ (or_introl eq_refl)). discriminate.
 Qed.
 
 Lemma all_words_nil t : all_words t -> words_of t = [] -> t = [].
@@ -650,7 +665,7 @@ Proof.
   - cbn [pos_values] in Hv. cbn [map acon_go]. unfold compile_pos at 1.
     destruct (cp_par p) eqn:Par.
     + (* required *)
-      destruct W as [lo|lo i a j it t Hl Hk Ho Ha W|lo i a j it b w t Hl Hk Ho Ha Hvv W|lo i a t Hl Hw W].
+      destruct W as [lo|lo i a j it t Hl Hk Ho Ha W|lo i a j it b w t Hl Hk Ho Ha Hvv W|lo i a t Hl Hw W|lo i a t Hl Hfo W].
       * cbn in Hv. discriminate.
       * specialize (Aw _ (or_introl eq_refl)). discriminate.
       * specialize (Aw _ (or_introl eq_refl)). discriminate.
@@ -661,8 +676,9 @@ Proof.
         rewrite (pos_head (cp_ty p) i a (untag t) Hw (WF_above' items _ _ W)). unfold aconvert. rewrite Cv.
         rewrite (IH (S i) t (v :: acc) vs W (all_words_tail _ _ Aw) ltac:(cbn in Hf; lia) Er).
         cbn [rev]. rewrite <- app_assoc. reflexivity.
+      * specialize (Aw _ (or_introl eq_refl)). discriminate.
     + (* optional *)
-      destruct W as [lo|lo i a j it t Hl Hk Ho Ha W|lo i a j it b w t Hl Hk Ho Ha Hvv W|lo i a t Hl Hw W].
+      destruct W as [lo|lo i a j it t Hl Hk Ho Ha W|lo i a j it b w t Hl Hk Ho Ha Hvv W|lo i a t Hl Hw W|lo i a t Hl Hfo W].
       * cbn [words_of flat_map] in Hv. destruct (pos_values ps []) as [vs|] eqn:Er; [|discriminate]. inversion Hv; subst pv.
         cbn [aeval untag map]. unfold aoptional, aparse_option. cbn. rewrite Nat.eqb_refl. cbn.
         change (@nil (nat * arg)) with (untag []).
@@ -678,6 +694,7 @@ Proof.
         rewrite (pos_head (cp_ty p) i a (untag t) Hw (WF_above' items _ _ W)). unfold aconvert. rewrite Cv. cbn [lt_len].
         rewrite (IH (S i) t (VSome v :: acc) vs W (all_words_tail _ _ Aw) ltac:(cbn in Hf; lia) Er).
         cbn [rev]. rewrite <- app_assoc. reflexivity.
+      * specialize (Aw _ (or_introl eq_refl)). discriminate.
     + (* many *)
       destruct (conv_words (cp_ty p) (words_of t)) as [vs|] eqn:Cw; [|discriminate].
       destruct (pos_values ps []) as [r|] eqn:Er; [|discriminate]. inversion Hv; subst pv.
@@ -721,115 +738,125 @@ Proof. destruct res; cbn; intros H; inversion H; eauto. Qed.
 
 Section Scan.
 Variable items : list citem.
+Variable anc : list citem.
 Variable tail : ctail.
 
 Definition scan_good (ix : nat) (ts : list (arg * bool)) (a : attribution) : Prop :=
   let t := tag_from ix ts (at_roles a) in
-  WF items ix t /\ occs_of t = at_occ a /\ words_of t = at_words a /\ untag t = live_from ix ts.
+  WF items ix t /\ occs_of t = at_occ a /\ words_of t = at_words a /\ untag t = live_from ix ts /\
+  (forall x, In x t -> snd x <> RMark).
 
 Lemma scan_wf n : forall ts, length ts <= n -> forall ix a,
-  scan items [] tail ts = ScDone a -> scan_good ix ts a.
+  scan items anc tail ts = ScDone a -> scan_good ix ts a.
 Proof.
   induction n as [|n IH]; intros ts Hn ix a H.
-  - destruct ts; [|cbn in Hn; lia]. cbn in H. inversion H; subst. cbn. repeat split. constructor.
-  - destruct ts as [|[x m] rest]; [cbn in H; inversion H; subst; cbn; repeat split; constructor|].
+  - destruct ts; [|cbn in Hn; lia]. cbn in H. inversion H; subst. cbn. repeat split; try constructor. intros x [].
+  - destruct ts as [|[x m] rest]; [cbn in H; inversion H; subst; cbn; repeat split; try constructor; intros x0 []|].
     cbn [scan] in H. cbn [length] in Hn.
     destruct m.
     + (* the `--` item *)
       apply att_cons_done in H. destruct H as (a' & H & ->).
-      destruct (IH rest ltac:(lia) (S ix) a' H) as (W & Ho & Hw & Hu).
+      destruct (IH rest ltac:(lia) (S ix) a' H) as (W & Ho & Hw & Hu & Hnf).
       unfold scan_good. cbn [at_roles at_occ at_words tag_from app].
       repeat split; auto. eapply WF_weaken; [|exact W]. lia.
     + destruct x as [c adj os|nm adj os|w|w|w].
       * (* short *)
         destruct (is_help (Short c adj os)); [discriminate|].
-        destruct (find_owner items (Short c adj os) 0) as [[k it]|] eqn:Fo; [|destruct (find_owner [] _ 0); [discriminate|]; destruct (unspec_later _ _ _ _ _); discriminate].
+        destruct (find_owner items (Short c adj os) 0) as [[k it]|] eqn:Fo; [|destruct (find_owner anc _ 0); [discriminate|]; destruct (unspec_later _ _ _ _ _); discriminate].
         destruct (is_argument it) eqn:Ia.
         -- destruct rest as [|[b mb] rest']; [destruct (unspec_later _ _ _ _ _); discriminate|].
            destruct b as [c2 a2 o2|n2 a2 o2|w|w|w]; destruct mb; try (destruct (unspec_later _ _ _ _ _); discriminate).
            ++ (* ArgWord *) destruct adj; [|destruct (unspec_later _ _ _ _ _); discriminate].
               apply att_cons_done in H. destruct H as (a' & H & ->). cbn [length] in Hn.
-              destruct (IH rest' ltac:(lia) (S (S ix)) a' H) as (W & Ho & Hw & Hu).
+              destruct (IH rest' ltac:(lia) (S (S ix)) a' H) as (W & Ho & Hw & Hu & Hnf).
               unfold scan_good. cbn [at_roles at_occ at_words tag_from app].
               repeat split.
               ** eapply WF_arg; eauto. reflexivity.
               ** cbn [occs_of word_of]. rewrite Ho. reflexivity.
               ** cbn [words_of flat_map snd app]. exact Hw.
               ** cbn [untag map fst live_from app]. f_equal. f_equal. exact Hu.
+              ** intros x [<-|[<-|Hx]]; [discriminate|discriminate|exact (Hnf x Hx)].
            ++ (* Word *)
               apply att_cons_done in H. destruct H as (a' & H & ->). cbn [length] in Hn.
-              destruct (IH rest' ltac:(lia) (S (S ix)) a' H) as (W & Ho & Hw & Hu).
+              destruct (IH rest' ltac:(lia) (S (S ix)) a' H) as (W & Ho & Hw & Hu & Hnf).
               unfold scan_good. cbn [at_roles at_occ at_words tag_from app].
               repeat split.
               ** eapply WF_arg; eauto. reflexivity.
               ** cbn [occs_of word_of]. rewrite Ho. reflexivity.
               ** cbn [words_of flat_map snd app]. exact Hw.
               ** cbn [untag map fst live_from app]. f_equal. f_equal. exact Hu.
+              ** intros x [<-|[<-|Hx]]; [discriminate|discriminate|exact (Hnf x Hx)].
         -- destruct adj; [destruct (unspec_later _ _ _ _ _); discriminate|].
            apply att_cons_done in H. destruct H as (a' & H & ->).
-           destruct (IH rest ltac:(lia) (S ix) a' H) as (W & Ho & Hw & Hu).
+           destruct (IH rest ltac:(lia) (S ix) a' H) as (W & Ho & Hw & Hu & Hnf).
            unfold scan_good. cbn [at_roles at_occ at_words tag_from app].
            repeat split.
            ++ eapply WF_flag; eauto.
            ++ rewrite (occs_flag items ix ix _ k _ W (le_n ix)). rewrite Ho. reflexivity.
            ++ cbn [words_of flat_map snd app]. exact Hw.
            ++ cbn [untag map fst live_from app]. f_equal. exact Hu.
+           ++ intros x [<-|Hx]; [discriminate|exact (Hnf x Hx)].
       * (* long *)
         destruct (is_help (Long nm adj os)); [discriminate|].
-        destruct (find_owner items (Long nm adj os) 0) as [[k it]|] eqn:Fo; [|destruct (find_owner [] _ 0); [discriminate|]; destruct (unspec_later _ _ _ _ _); discriminate].
+        destruct (find_owner items (Long nm adj os) 0) as [[k it]|] eqn:Fo; [|destruct (find_owner anc _ 0); [discriminate|]; destruct (unspec_later _ _ _ _ _); discriminate].
         destruct (is_argument it) eqn:Ia.
         -- destruct rest as [|[b mb] rest']; [destruct (unspec_later _ _ _ _ _); discriminate|].
            destruct b as [c2 a2 o2|n2 a2 o2|w|w|w]; destruct mb; try (destruct (unspec_later _ _ _ _ _); discriminate).
            ++ destruct adj; [|destruct (unspec_later _ _ _ _ _); discriminate].
               apply att_cons_done in H. destruct H as (a' & H & ->). cbn [length] in Hn.
-              destruct (IH rest' ltac:(lia) (S (S ix)) a' H) as (W & Ho & Hw & Hu).
+              destruct (IH rest' ltac:(lia) (S (S ix)) a' H) as (W & Ho & Hw & Hu & Hnf).
               unfold scan_good. cbn [at_roles at_occ at_words tag_from app].
               repeat split.
               ** eapply WF_arg; eauto. reflexivity.
               ** cbn [occs_of word_of]. rewrite Ho. reflexivity.
               ** cbn [words_of flat_map snd app]. exact Hw.
               ** cbn [untag map fst live_from app]. f_equal. f_equal. exact Hu.
+              ** intros x [<-|[<-|Hx]]; [discriminate|discriminate|exact (Hnf x Hx)].
            ++ apply att_cons_done in H. destruct H as (a' & H & ->). cbn [length] in Hn.
-              destruct (IH rest' ltac:(lia) (S (S ix)) a' H) as (W & Ho & Hw & Hu).
+              destruct (IH rest' ltac:(lia) (S (S ix)) a' H) as (W & Ho & Hw & Hu & Hnf).
               unfold scan_good. cbn [at_roles at_occ at_words tag_from app].
               repeat split.
               ** eapply WF_arg; eauto. reflexivity.
               ** cbn [occs_of word_of]. rewrite Ho. reflexivity.
               ** cbn [words_of flat_map snd app]. exact Hw.
               ** cbn [untag map fst live_from app]. f_equal. f_equal. exact Hu.
+              ** intros x [<-|[<-|Hx]]; [discriminate|discriminate|exact (Hnf x Hx)].
         -- destruct adj; [destruct (unspec_later _ _ _ _ _); discriminate|].
            apply att_cons_done in H. destruct H as (a' & H & ->).
-           destruct (IH rest ltac:(lia) (S ix) a' H) as (W & Ho & Hw & Hu).
+           destruct (IH rest ltac:(lia) (S ix) a' H) as (W & Ho & Hw & Hu & Hnf).
            unfold scan_good. cbn [at_roles at_occ at_words tag_from app].
            repeat split.
            ++ eapply WF_flag; eauto.
            ++ rewrite (occs_flag items ix ix _ k _ W (le_n ix)). rewrite Ho. reflexivity.
            ++ cbn [words_of flat_map snd app]. exact Hw.
            ++ cbn [untag map fst live_from app]. f_equal. exact Hu.
+           ++ intros x [<-|Hx]; [discriminate|exact (Hnf x Hx)].
       * (* ArgWord *) destruct (unspec_later _ _ _ _ _); discriminate.
       * (* Word *)
         destruct (dashy w); [discriminate|].
         destruct tail as [|ps|cs].
         -- destruct (unspec_later _ _ _ _ _); discriminate.
         -- apply att_cons_done in H. destruct H as (a' & H & ->).
-           destruct (IH rest ltac:(lia) (S ix) a' H) as (W & Ho & Hw & Hu).
+           destruct (IH rest ltac:(lia) (S ix) a' H) as (W & Ho & Hw & Hu & Hnf).
            unfold scan_good. cbn [at_roles at_occ at_words tag_from app].
            repeat split.
            ++ apply WF_word; auto.
            ++ cbn [occs_of]. exact Ho.
            ++ cbn [words_of flat_map snd fst app word_of]. f_equal. exact Hw.
            ++ cbn [untag map fst live_from app]. f_equal. exact Hu.
+           ++ intros x [<-|Hx]; [discriminate|exact (Hnf x Hx)].
         -- destruct (find_cmd cs w); [discriminate|]. destruct (unspec_later _ _ _ _ _); discriminate.
       * (* PosWord *)
         destruct tail as [|ps|cs]; try (destruct (unspec_later _ _ _ _ _); discriminate).
         apply att_cons_done in H. destruct H as (a' & H & ->).
-        destruct (IH rest ltac:(lia) (S ix) a' H) as (W & Ho & Hw & Hu).
+        destruct (IH rest ltac:(lia) (S ix) a' H) as (W & Ho & Hw & Hu & Hnf).
         unfold scan_good. cbn [at_roles at_occ at_words tag_from app].
         repeat split.
         -- apply WF_word; auto.
         -- cbn [occs_of]. exact Ho.
         -- cbn [words_of flat_map snd fst app word_of]. f_equal. exact Hw.
         -- cbn [untag map fst live_from app]. f_equal. exact Hu.
+        -- intros x [<-|Hx]; [discriminate|exact (Hnf x Hx)].
 Qed.
 End Scan.
 
@@ -892,7 +919,7 @@ Proof.
   fold (tokenize sf sa argv) in Hmk. fold t in Hmk.
   destruct (t_marker t) as [m|] eqn:Hm; cbn [fst].
   - specialize (Hmk m eq_refl).
-    constructor; cbn; auto.
+    constructor; cbn; auto; try lia.
     + rewrite update_nth_length, repeat_length. reflexivity.
     + unfold view. cbn. apply view_mark.
       * rewrite update_nth_length, repeat_length. reflexivity.
@@ -907,7 +934,7 @@ Proof.
       assert (B : Nat.leb 0 m && Nat.ltb m (length (t_items t)) = true).
       { apply andb_true_intro. split; [reflexivity|apply Nat.ltb_lt; exact Hmk]. }
       rewrite B. lia.
-  - constructor; cbn; auto.
+  - constructor; cbn; auto; try lia.
     + apply repeat_length.
     + unfold view. cbn. apply view_mark.
       * apply repeat_length.
@@ -920,7 +947,7 @@ Qed.
 Lemma WF_roles_lt items lo t : WF items lo t ->
   forall x j, In x t -> (snd x = RKey j \/ snd x = RVal j) -> j < length items.
 Proof.
-  induction 1 as [lo|lo i a k it t Hl Hk Ho Ha W IH|lo i a k it b w t Hl Hk Ho Ha Hv W IH|lo i a t Hl Hw W IH];
+  induction 1 as [lo|lo i a k it t Hl Hk Ho Ha W IH|lo i a k it b w t Hl Hk Ho Ha Hv W IH|lo i a t Hl Hw W IH|lo i a t Hl Hfo W IH];
     intros x j Hx Hr.
   - contradiction.
   - destruct Hx as [<-|Hx]; [|eapply IH; eauto]. cbn in Hr.
@@ -930,40 +957,32 @@ Proof.
     apply nth_error_Some_lt in Hn.
     destruct Hx as [<-|[<-|Hx]]; [| |eapply IH; eauto]; cbn in Hr; destruct Hr as [Hr|Hr]; inversion Hr; subst; exact Hn.
   - destruct Hx as [<-|Hx]; [|eapply IH; eauto]. cbn in Hr. destruct Hr; discriminate.
+  - destruct Hx as [<-|Hx]; [|eapply IH; eauto]. cbn in Hr. destruct Hr; discriminate.
 Qed.
 
-Lemma filter_all_words items lo t : WF items lo t -> all_words (filter (keep (length items)) t).
+Definition no_foreign (t : tl3) : Prop := forall x, In x t -> snd x <> RMark.
+
+Lemma filter_all_words items lo t : WF items lo t -> no_foreign t -> all_words (filter (keep (length items)) t).
 Proof.
-  intros W x Hx. apply filter_In in Hx. destruct Hx as [Hin Hk]. unfold keep in Hk.
-  destruct (snd x) as [j|j| |] eqn:E; try reflexivity; try discriminate.
+  intros W Nf x Hx. apply filter_In in Hx. destruct Hx as [Hin Hk]. unfold keep in Hk.
+  destruct (snd x) as [j|j| |] eqn:E; try reflexivity.
   - apply Nat.leb_le in Hk. pose proof (WF_roles_lt items lo t W x j Hin (or_introl E)). lia.
   - apply Nat.leb_le in Hk. pose proof (WF_roles_lt items lo t W x j Hin (or_intror E)). lia.
+  - exfalso. apply (Nf x Hin). exact E.
 Qed.
 
-Lemma words_filter k t : (forall x, In x t -> snd x <> RMark) -> words_of (filter (keep k) t) = words_of t.
+Lemma words_filter k t : words_of (filter (keep k) t) = words_of t.
 Proof.
-  induction t as [|x t IH]; intros Hm; [reflexivity|].
+  induction t as [|x t IH]; [reflexivity|].
   cbn [filter]. unfold keep at 1. destruct (snd x) as [j|j| |] eqn:E.
-  - destruct (Nat.leb k j); cbn [words_of flat_map]; rewrite E; cbn [app]; apply IH; intros y Hy; apply Hm; right; exact Hy.
-  - destruct (Nat.leb k j); cbn [words_of flat_map]; rewrite E; cbn [app]; apply IH; intros y Hy; apply Hm; right; exact Hy.
-  - cbn [words_of flat_map]. rewrite E. f_equal. apply IH. intros y Hy. apply Hm. right. exact Hy.
-  - exfalso. apply (Hm x (or_introl eq_refl)). exact E.
+  - destruct (Nat.leb k j); cbn [words_of flat_map]; rewrite E; cbn [app]; apply IH.
+  - destruct (Nat.leb k j); cbn [words_of flat_map]; rewrite E; cbn [app]; apply IH.
+  - cbn [words_of flat_map]. rewrite E. f_equal. apply IH.
+  - cbn [words_of flat_map]. rewrite E. cbn [app]. apply IH.
 Qed.
 
-Lemma WF_no_mark items lo t : WF items lo t -> forall x, In x t -> snd x <> RMark.
-Proof.
-  induction 1; intros x Hx; cbn in Hx.
-  - contradiction.
-  - destruct Hx as [<-|Hx]; [discriminate|auto].
-  - destruct Hx as [<-|[<-|Hx]]; [discriminate|discriminate|auto].
-  - destruct Hx as [<-|Hx]; [discriminate|auto].
-Qed.
-
-Lemma filter_keep_0 items lo t : WF items lo t -> filter (keep 0) t = t.
-Proof.
-  intros W. apply filter_all. intros x Hx. unfold keep. pose proof (WF_no_mark items lo t W x Hx).
-  destruct (snd x); try reflexivity. congruence.
-Qed.
+Lemma filter_keep_0 t : filter (keep 0) t = t.
+Proof. apply filter_all. intros x Hx. unfold keep. destruct (snd x); reflexivity. Qed.
 
 Lemma aevals_plist fuel l : aevals fuel (plist_of l) = map (aeval fuel) l.
 Proof. induction l as [|p t IH]; cbn; [reflexivity|]. rewrite IH. reflexivity. Qed.
@@ -1019,8 +1038,8 @@ Lemma att_cons_cmd r o w res a sub rest :
   att_cons r o w res = ScCmd a sub rest -> exists a', res = ScCmd a' sub rest.
 Proof. destruct res; cbn; intros H; inversion H; eauto. Qed.
 
-Lemma scan_not_cmd items tail n : (forall cs, tail <> TCmds cs) ->
-  forall ts, length ts <= n -> forall a sub rest, scan items [] tail ts <> ScCmd a sub rest.
+Lemma scan_not_cmd items anc tail n : (forall cs, tail <> TCmds cs) ->
+  forall ts, length ts <= n -> forall a sub rest, scan items anc tail ts <> ScCmd a sub rest.
 Proof.
   intros Ht. induction n as [|n IH]; intros ts Hn a sub rest H.
   - destruct ts; [cbn in H; discriminate|cbn in Hn; lia].
@@ -1029,7 +1048,7 @@ Proof.
     + apply att_cons_cmd in H. destruct H as [a' H]. eapply IH; [|exact H]. lia.
     + destruct x as [c adj os|nm adj os|w|w|w].
       * destruct (is_help _); [discriminate|].
-        destruct (find_owner items _ 0) as [[k it]|]; [|destruct (find_owner [] _ 0); [discriminate|]; destruct (unspec_later _ _ _ _ _); discriminate].
+        destruct (find_owner items _ 0) as [[k it]|]; [|destruct (find_owner anc _ 0); [discriminate|]; destruct (unspec_later _ _ _ _ _); discriminate].
         destruct (is_argument it).
         -- destruct r as [|[b mb] r']; [destruct (unspec_later _ _ _ _ _); discriminate|].
            destruct b; destruct mb; try (destruct (unspec_later _ _ _ _ _); discriminate).
@@ -1039,7 +1058,7 @@ Proof.
         -- destruct adj; [destruct (unspec_later _ _ _ _ _); discriminate|].
            apply att_cons_cmd in H. destruct H as [a' H]. eapply IH; [|exact H]. lia.
       * destruct (is_help _); [discriminate|].
-        destruct (find_owner items _ 0) as [[k it]|]; [|destruct (find_owner [] _ 0); [discriminate|]; destruct (unspec_later _ _ _ _ _); discriminate].
+        destruct (find_owner items _ 0) as [[k it]|]; [|destruct (find_owner anc _ 0); [discriminate|]; destruct (unspec_later _ _ _ _ _); discriminate].
         destruct (is_argument it).
         -- destruct r as [|[b mb] r']; [destruct (unspec_later _ _ _ _ _); discriminate|].
            destruct b; destruct mb; try (destruct (unspec_later _ _ _ _ _); discriminate).
@@ -1063,14 +1082,55 @@ Proof. induction its as [|a t IH]; intros ix; cbn; [reflexivity|]. rewrite IH. r
 Lemma live_from_le ts : forall ix, length (live_from ix ts) <= length ts.
 Proof. induction ts as [|[a m] r IH]; intros ix; cbn; [lia|]. rewrite app_length. specialize (IH (S ix)). destruct m; cbn; lia. Qed.
 
+(* a flat level evaluated on any state whose live tokens are the level's tokens *)
+Lemma level_eval_flat env n items tail anc ts ix s v f :
+  flat_ok items tail -> Sim n s (live_from ix ts) -> length ts <= n ->
+  denote_level (S f) (Level items tail) anc ts = Accept v ->
+  exists s', eval env (compile (Level items tail)) s = (ROk v, s') /\ Sim n s' [].
+Proof.
+  intros Hok S0 Hlen Hd. pose proof Hok as (Hdis & Hnames & Hl2).
+  destruct (compile_flat items tail Hok) as [Ec Hflat].
+  cbn [denote_level] in Hd.
+  assert (Hnc : forall cs, tail <> TCmds cs) by (intros cs ->; contradiction).
+  destruct (scan items anc tail ts) as [a|a sub rest| |] eqn:Sc; try discriminate;
+    [|exfalso; eapply (scan_not_cmd items anc tail _ Hnc ts (le_n _)); exact Sc].
+  destruct (items_values items 0 (at_occ a)) as [vs|] eqn:Ev; [|discriminate].
+  destruct (scan_wf items anc tail _ ts (le_n _) ix a Sc) as (W & Ho & Hw & Hu & Hnf).
+  set (t0 := tag_from ix ts (at_roles a)) in *.
+  assert (Hlt0 : length t0 < S (S n)).
+  { rewrite <- (untag_length t0), Hu. pose proof (live_from_le ts ix) as L. lia. }
+  assert (Ha : aeval (S (S n)) (compile (Level items tail)) (untag t0) = (AOk v, [])).
+  { rewrite Ec. cbn [aeval]. rewrite aevals_plist, map_app.
+    rewrite <- (filter_keep_0 t0) at 1.
+    rewrite (items_go items Hdis (S (S n)) ix t0 _ W Hlt0 items 0 [] vs (fun p it H => H)); [|rewrite Ho; exact Ev].
+    cbn [Nat.add]. rewrite app_nil_r.
+    set (tw := filter (keep (length items)) t0).
+    assert (Ww : WF items ix tw) by (apply WF_filter; exact W).
+    assert (Aw : all_words tw) by (eapply filter_all_words; [exact W|exact Hnf]).
+    assert (Hww : words_of tw = at_words a).
+    { unfold tw. rewrite words_filter. exact Hw. }
+    destruct tail as [|ps|cs]; [| |contradiction].
+    - cbn [tail_fields map acon_go]. destruct (at_words a) eqn:Eaw; [|discriminate].
+      rewrite (all_words_nil tw Aw Hww). inversion Hd; subst. rewrite rev_involutive. reflexivity.
+    - cbn [tail_fields]. destruct (pos_values ps (at_words a)) as [pv|] eqn:Ep; [|discriminate].
+      inversion Hd; subst v.
+      rewrite (pos_go items (S (S n)) ps ix tw (rev vs) pv Ww Aw); [| |rewrite Hww; exact Ep].
+      + rewrite rev_app_distr, !rev_involutive. reflexivity.
+      + unfold tw. pose proof (length_filter_le (keep (length items)) t0). lia. }
+  rewrite Hu in Ha.
+  destruct (eval_sim env n (compile (Level items tail)) Hflat s _ S0) as [R S1].
+  rewrite Ha in R, S1. cbn [fst snd] in R, S1.
+  destruct (eval env (compile (Level items tail)) s) as [r s1]. cbn [fst snd] in R, S1.
+  destruct r as [v'|e|w|]; cbn in R; try contradiction. subst v'. eauto.
+Qed.
+
 (* C01, sentences: what the declared grammar accepts with value v, the parser returns as v *)
 Theorem denote_accept_flat feat env items tail argv v :
   flat_ok items tail ->
   denote (Level items tail) argv = Accept v ->
   run_inner feat env (compile_options (Level items tail)) None argv = OutOk v.
 Proof.
-  intros Hok Hd. pose proof Hok as (Hdis & Hnames & Hlen).
-  destruct (compile_flat items tail Hok) as [Ec Hflat].
+  intros Hok Hd.
   unfold denote in Hd. unfold run_inner, run_inner_state, initial_state.
   destruct (short_tables (compile_options (Level items tail))) as [sf sa].
   pose proof (construct_sim sf sa None argv) as S0. cbn zeta in S0.
@@ -1078,45 +1138,11 @@ Proof.
   set (t := tokenize sf sa argv) in *.
   destruct (construct sf sa None argv) as [s0 amb0]. cbn [fst snd] in S0, Hamb. subst amb0.
   destruct (t_ambiguity t) as [amb|] eqn:Ea; [discriminate|].
-  set (n := length (t_items t)) in *.
-  cbn [denote_level] in Hd.
-  assert (Hnc : forall cs, tail <> TCmds cs) by (intros cs ->; contradiction).
-  destruct (scan items [] tail (mark_tokens t)) as [a|a sub rest| |] eqn:Sc; try discriminate;
-    [|exfalso; eapply (scan_not_cmd items tail _ Hnc (mark_tokens t) (le_n _)); exact Sc].
-  destruct (items_values items 0 (at_occ a)) as [vs|] eqn:Ev; [|discriminate].
-  destruct (scan_wf items tail _ (mark_tokens t) (le_n _) 0 a Sc) as (W & Ho & Hw & Hu).
-  set (t0 := tag_from 0 (mark_tokens t) (at_roles a)) in *.
-  assert (Hlt0 : length t0 < S (S n)).
-  { rewrite <- (untag_length t0), Hu. pose proof (live_from_le (mark_tokens t) 0) as L.
-    unfold mark_tokens in L at 2. rewrite mark_go_length in L. subst n. lia. }
-  (* the abstract evaluation *)
-  assert (Ha : aeval (S (S n)) (compile (Level items tail)) (untag t0) = (AOk v, [])).
-  { rewrite Ec. cbn [aeval]. rewrite aevals_plist, map_app.
-    rewrite <- (filter_keep_0 items 0 t0 W) at 1.
-    rewrite (items_go items Hdis (S (S n)) 0 t0 _ W Hlt0 items 0 [] vs (fun p it H => H)); [|rewrite Ho; exact Ev].
-    cbn [Nat.add]. rewrite app_nil_r.
-    set (tw := filter (keep (length items)) t0).
-    assert (Ww : WF items 0 tw) by (apply WF_filter; exact W).
-    assert (Aw : all_words tw) by (eapply filter_all_words; exact W).
-    assert (Hww : words_of tw = at_words a).
-    { unfold tw. rewrite words_filter; [exact Hw|]. eapply WF_no_mark. exact W. }
-    destruct tail as [|ps|cs]; [| |contradiction].
-    - cbn [tail_fields map acon_go]. destruct (at_words a) eqn:Eaw; [|discriminate].
-      rewrite (all_words_nil tw Aw Hww). inversion Hd; subst. rewrite rev_involutive. reflexivity.
-    - cbn [tail_fields]. destruct (pos_values ps (at_words a)) as [pv|] eqn:Ep; [|discriminate].
-      inversion Hd; subst v.
-      rewrite (pos_go items (S (S n)) ps 0 tw (rev vs) pv Ww Aw); [| |rewrite Hww; exact Ep].
-      + rewrite rev_app_distr, !rev_involutive. reflexivity.
-      + unfold tw. pose proof (length_filter_le (keep (length items)) t0). lia. }
-  (* back to the real evaluator *)
-  rewrite Hu in Ha.
-  destruct (eval_sim env n (compile (Level items tail)) Hflat s0 _ S0) as [R S1].
-  rewrite Ha in R, S1. cbn [fst snd] in R, S1.
-  unfold compile_options. rewrite run_sub_eq.
-  destruct (eval env (compile (Level items tail)) s0) as [r s1]. cbn [fst snd] in R, S1.
-  destruct r as [v'|e|w|]; cbn in R; try contradiction. subst v'.
+  assert (Hlen : length (mark_tokens t) <= length (t_items t)) by (unfold mark_tokens; rewrite mark_go_length; lia).
+  destruct (level_eval_flat env _ items tail [] (mark_tokens t) 0 s0 v _ Hok S0 Hlen Hd) as (s1 & Ee & S1).
+  unfold compile_options. rewrite run_sub_eq, Ee.
   unfold run_sub_body. cbn [andb].
-  unfold first_item_ix. rewrite (find_item_view n s1 [] (fun _ => true) S1). reflexivity.
+  unfold first_item_ix. rewrite (find_item_view _ s1 [] (fun _ => true) S1). reflexivity.
 Qed.
 
 (* ------------------------------------------------------------------ a decidable sufficient condition for flat_ok *)
